@@ -540,12 +540,33 @@ pub fn c04(a: &Args) {
         id += 1;
         run_c04(&mut outs[(id as usize) % shards], 1_000_000 + i, "rnd", &p, &o);
     }
+    // (3) runs of control-character glyphs (the cells 0x07/08/09/0A/0C/0D/1B/7F, representable only with the IcyTerm control
+    //     character handling): every glyph x run length x neighbourhood, rotated over EVERY exported option configuration
+    //     that uses that handling - the writer's escape for the glyph meets its run-length and repeat logic here
+    let icy_cfgs: Vec<&Value> = cfgs.iter().filter(|c| AnsOpts::from_json(c).ctrl == 1).collect();
+    let mut combos: Vec<(u32, usize, usize, usize, u32)> = Vec::new();
+    for &g in ANSI_CTRL.iter() { for run in [1usize, 2, 3, 4, 5, 6, 12] { for pre in 0..2usize { for post in 0..2usize { for bg in [0u32, 1] { combos.push((g, run, pre, post, bg)); } } } } }
+    let n_ctrl = if icy_cfgs.is_empty() { 0 } else if thorough { icy_cfgs.len().max(combos.len()) * 2 } else { icy_cfgs.len().max(combos.len()) };
+    for i in 0..n_ctrl {
+        let c = icy_cfgs[i % icy_cfgs.len()];
+        let (g, run, pre, post, bg) = combos[(i + i / combos.len()) % combos.len()];
+        let o = AnsOpts::from_json(c);
+        let cell = |ch: u32| Cell { ch, fg: if bg == 1 { 14 } else { 7 }, bg: if bg == 1 { 1 } else { 0 }, flags: 0 };
+        let mut row: Vec<Cell> = Vec::new();
+        if pre == 1 { row.push(cell(97)); row.push(cell(98)); }
+        for _ in 0..run { row.push(cell(g)); }
+        if post == 1 { row.push(cell(99)); row.push(cell(100)); }
+        let rows = vec![row.clone(), vec![cell(101), cell(110), cell(100)], row];
+        let p = Pic { w: 80, h: rows.len() as i32, ice: ice_of(c["ice"].as_u64().unwrap_or(0)), rows, extra_colors: vec![] };
+        id += 1;
+        run_c04(&mut outs[(id as usize) % shards], 2_000_000 + i as u64, "ctrl", &p, &o);
+    }
     let mut total = 0;
     for o in &mut outs {
         o.flush();
         total += o.n;
     }
-    eprintln!("c04: {n_small} TLC-generated cases ({} configurations, {} small buffers), {n_rnd} random cases, {total} events", cfgs.len(), bufs.len());
+    eprintln!("c04: {n_ctrl} control-glyph cases, {n_small} TLC-generated cases ({} configurations, {} small buffers), {n_rnd} random cases, {total} events", cfgs.len(), bufs.len());
 }
 
 // ------------------------------------------------------------------ C15
